@@ -42,6 +42,10 @@ fn decl_pool() -> Vec<RDecl> {
         },
         RDecl::Type { name: "B".into(), ty: arr(3, tname("A")) },
         RDecl::Proc { name: "r".into(), params: vec![], vars: vec![], body: vec![RStmt::Empty, RStmt::Call("printi".into(), vec![eint(1)])] },
+        // a procedure without statements (recovery inside the variable-declaration part) ...
+        RDecl::Proc { name: "e".into(), params: vec![], vars: vec![], body: vec![] },
+        // ... and one with declarations only
+        RDecl::Proc { name: "d".into(), params: vec![RParam { is_ref: true, name: "p".into(), ty: arr(2, tname("int")) }], vars: vec![RVarDecl { name: "v".into(), ty: tname("int") }], body: vec![] },
     ]
 }
 
@@ -428,7 +432,7 @@ pub fn run(tier: Tier) -> Report {
     rep.evaluations = rep.transitions;
     rep.traces_validated = rep.transitions;
     rep.distinct_nontrivial = rep.transitions;
-    rep.rule = "valid programs (without and with a doc-comment line in front of every declaration): every subset of 2..3/4 declarations of a 5-declaration pool in every order that type checks x every declaration as the damaged one x every token of it except the declaration keyword x {delete, insert each token of the alphabet in front of it, replace it by each} (alphabet without proc/type); oracle (differential with the undamaged parse): sub-trees of all other declarations equal (Reference offset shifted by the token delta), symbol-table entries equal up to the shift, syntax diagnostics inside the damaged declaration's byte span, goto declaration inside undamaged declarations answers as before".into();
+    rep.rule = "valid programs (without and with a doc-comment line in front of every declaration): every subset of 2..3/4 declarations of a 7-declaration pool in every order that type checks x every declaration as the damaged one x every token of it except the declaration keyword x {delete, insert each token of the alphabet in front of it, replace it by each} (alphabet without proc/type); oracle (differential with the undamaged parse): sub-trees of all other declarations equal (Reference offset shifted by the token delta), symbol-table entries equal up to the shift, syntax diagnostics inside the damaged declaration's byte span, goto declaration inside undamaged declarations answers as before".into();
     rep.bounds = json!({"programs": progs.len(), "alphabet": alphabet});
     rep.sample(json!({"base": "type A = array [ 2 ] of int ; proc q ( x : int , ref z : A ) { z [ 0 ] := x ; }", "damage": "Delete(`)` of q)"}));
     rep.assumptions = vec!["the undamaged parse of the same implementation is the reference (differential)".into()];
